@@ -1,11 +1,13 @@
 // =================================================================================================
 // sequences used as duplicate-free lists (generic facts, proved): first index, push / remove-first / filter
 // =================================================================================================
+#[verifier::opaque]
 pub open spec fn first_idx<T>(s: Seq<T>, x: T) -> int { choose|i: int| 0 <= i < s.len() && s[i] == x && forall|j: int| 0 <= j < i ==> s[j] != x }
 pub proof fn lemma_first_idx<T>(s: Seq<T>, x: T, p: int)
     requires 0 <= p < s.len(), s[p] == x, forall|j: int| 0 <= j < p ==> s[j] != x,
     ensures first_idx(s, x) == p,
 {
+    reveal(first_idx);
     let q = first_idx(s, x);
     assert(0 <= q < s.len() && s[q] == x && forall|j: int| 0 <= j < q ==> s[j] != x);
     if q < p { assert(s[q] != x); }
@@ -16,6 +18,7 @@ pub proof fn lemma_first_exists<T>(s: Seq<T>, x: T, w: int)
     ensures 0 <= first_idx(s, x) < s.len(), s[first_idx(s, x)] == x, forall|j: int| 0 <= j < first_idx(s, x) ==> s[j] != x,
     decreases w
 {
+    reveal(first_idx);
     if exists|j: int| 0 <= j < w && s[j] == x {
         let j = choose|j: int| 0 <= j < w && s[j] == x;
         lemma_first_exists(s, x, j);
